@@ -6,7 +6,7 @@ use crate::gen_schema::{self, ValCfg};
 use crate::outcome;
 use crate::rng::Rng;
 use crate::schema_dump::field_from_json;
-use crate::sval::Rows;
+use crate::sval::{self, Rows, SVal};
 use crate::Ctx;
 use serde_json::{json, Value};
 
@@ -145,9 +145,33 @@ pub fn exec(input: &Value) -> Value {
             serde_arrow::to_marrow(&fields, &Rows(rows)).map(|arrs| Value::Array(arrs.iter().map(dump::array_to_json).collect()))
         }));
     }
+    // Item / Items (utils/mod.rs): the records of rendering 0 as the items of the column `item: Struct(schema)`.
+    // Three ways that must give identical arrays: the real `Items(&[T])` wrapper, a slice of real `Item(T)`
+    // wrappers, and explicit one-field records named `item` (what the wrappers are documented to behave like).
+    let item_field = marrow::datatypes::Field {
+        name: "item".to_string(),
+        nullable: false,
+        metadata: Default::default(),
+        data_type: marrow::datatypes::DataType::Struct(fields.clone()),
+    };
+    let item_fields = vec![item_field];
+    let dump_arrs = |arrs: Vec<marrow::array::Array>| Value::Array(arrs.iter().map(dump::array_to_json).collect());
+    let mut items_outs = Vec::new();
+    if let Some(base) = input["renderings"].as_array().and_then(|a| a.first()).and_then(|r| r.as_array()) {
+        let svals: Vec<SVal> = base.iter().map(SVal).collect();
+        items_outs.push(outcome::run(|| {
+            serde_arrow::to_marrow(&item_fields, &serde_arrow::utils::Items(svals.as_slice())).map(dump_arrs)
+        }));
+        let wrapped: Vec<serde_arrow::utils::Item<SVal>> = base.iter().map(|v| serde_arrow::utils::Item(SVal(v))).collect();
+        items_outs.push(outcome::run(|| serde_arrow::to_marrow(&item_fields, &wrapped).map(dump_arrs)));
+        let explicit: Vec<Value> =
+            base.iter().map(|v| sval::record("Item", vec![("item".to_string(), 0, v.clone())])).collect();
+        items_outs.push(outcome::run(|| serde_arrow::to_marrow(&item_fields, &Rows(&explicit)).map(dump_arrs)));
+    }
     let mut case = input.clone();
     let obj = case.as_object_mut().unwrap();
     obj.insert("aux".into(), gen_schema::aux_for(&input["schema"], &input["renderings"]));
+    obj.insert("impl_items".into(), Value::Array(items_outs));
     obj.insert("impl".into(), Value::Array(outs));
     obj.insert("impl_malformed".into(), Value::Array(mouts));
     case
